@@ -201,6 +201,7 @@ def fam_cpumem_hist(tier, base):
     inputs, trace = base + ".in.ndjson", base + ".trace.ndjson"
     q = tier == "quick"
     runs = [("MC_CpuMemHist", "MC_CpuMemHist_quick.cfg" if q else "MC_CpuMemHist_thorough.cfg", None),
+            ("MC_CpuMemHist", "MC_CpuMemHist_cent.cfg", None),      # share base 100, requests in hundredths of a core
             ("MC_CpuMemFix", "MC_CpuMemFix_quick.cfg" if q else "MC_CpuMemFix_thorough.cfg", None),
             ("MC_CpuMemHist", "MC_CpuMemHist_sim.cfg", "num=%d" % (100 if q else 3000))]
     states = gen = n = 0
